@@ -2,6 +2,7 @@ import asyncio
 import collections.abc
 import itertools
 import json
+import math
 import ssl
 import urllib.parse
 from collections.abc import AsyncIterator
@@ -102,7 +103,7 @@ async def request(
             # If we are asked to retry later, do so, and obey the requested backoff.
             if isinstance(e, errors.APITooManyRequestsError):
                 if e.headers and e.headers.get("Retry-After"):
-                    retry_after = int(float(e.headers["Retry-After"]))  # the new style
+                    retry_after = math.ceil(float(e.headers["Retry-After"]))  # the new style
                 elif e.details and e.details.get("retryAfterSeconds"):
                     retry_after = int(e.details["retryAfterSeconds"])  # the old style
                 else:
